@@ -20,7 +20,8 @@ import c17_hist as H
 
 FINISH = dict(level="proof",
               rule="one case = one history (3-8 operations on a private world: runs of the real command line tool, "
-                   "edits, planted/truncated caches, killed writers, simultaneous cold starts); evaluations = "
+                   "edits, planted/truncated caches, killed writers, simultaneous cold starts, several analyses/loads with edits in "
+                   "between inside one process); evaluations = "
                    "operations executed on the implementation; a history is non-trivial when it contains more than a "
                    "cold run followed by warm runs; distinct = distinct (arch, kernel, mode, operation list)")
 
@@ -44,6 +45,12 @@ def core_histories(ctx, hook):
     add("home", [["load_other"], ["cli"], ["cli"], ["load_other"]])                     # same-name other file, shared home cache
     add("comp", [["load_other"], ["cli"], ["load_other"]])
     add("comp", [["load2"], ["load2"], ["cli"]])                                        # in-process cache
+    # several loads / analyses inside ONE process with edits in between (the in-process cache must not serve them)
+    add("comp", [["inproc", ["analyse", ["edit", 1], "analyse", ["edit", 2], "analyse", ["edit", 0], "analyse"]], ["cli"]], arch="zen1")
+    add("home", [["inproc", ["analyse", ["edit", 1], "analyse"]], ["cli"]], arch="n1")
+    add("comp", [["inproc", ["load", ["edit", 1], "load", ["edit", 2], "load_arch", ["edit", 0], "load"]]], arch="tx2")
+    add("comp", [["cli"], ["inproc", ["load_arch", ["edit", 1], "load_arch", "analyse"]], ["cli"]], arch="n1")
+    add("comp", [["inproc", ["load_rel", ["edit", 1], "load_rel", "load", ["edit", 2], "load_rel"]]], arch="zen1")
     ks = [0, 1, 2, 3]
     for k in ks:                                                                        # truncated cache file, every offset class
         add("comp", [["cli"], ["plant", "comp", k, "cur", 0], ["cli"], ["cli"]])
@@ -82,9 +89,17 @@ def random_histories(ctx, hook, count):
                            ["plant", ctx.rng.choice(["comp", "home"]), 4, ctx.rng.choice([1, 2]), ctx.rng.choice([-1, 1])])
             elif r < 0.8 and hook:
                 ops.append(["cli_crash", ctx.rng.randint(0, 4)])
-            elif r < 0.88:
+            elif r < 0.86:
                 ops.append(["race", ctx.rng.randint(2, 4)])
-            elif r < 0.94:
+            elif r < 0.92:
+                subs = []
+                for _ in range(ctx.rng.randint(3, 5)):
+                    x = ctx.rng.random()
+                    subs.append(["edit", ctx.rng.choice([0, 1, 2])] if x < 0.4 else
+                                ctx.rng.choice(["analyse", "load", "load_arch", "load_rel"]))
+                subs.append(ctx.rng.choice(["analyse", "load", "load_arch"]))
+                ops.append(["inproc", subs])
+            elif r < 0.96:
                 ops.append(["load_other"])
             else:
                 ops.append(["load2"])
@@ -161,14 +176,14 @@ def judge(ctx, specs, worlds, tag):
     # (search) the property itself on the implementation's outputs
     nviol = 0
     for i, (s, w) in enumerate(zip(specs, worlds)):
-        ctx.count(len(s["ops"]))
-        if len(s["ops"]) > 1 and any(o[0] != "cli" for o in s["ops"]):
+        ctx.count(sum(len(o[1]) if o[0] == "inproc" else 1 for o in s["ops"]))
+        if (len(s["ops"]) > 1 or s["ops"][0][0] == "inproc") and any(o[0] != "cli" for o in s["ops"]):
             ctx.nontriv(json.dumps([s["arch"], s["kernel"], s["mode"], s["ops"]]))
         for key, what in w.bad:
             nviol += 1
             ctx.violation(key, "%s --arch %s, %s cache: %s; history: %s" % (
                 os.path.basename(s["kernel"]), s["arch"], "home" if s["mode"] == "home" else "companion", what,
-                " ; ".join(w.log[::2])), {"spec": s})
+                " ; ".join(l for l in w.log if not l.startswith("   fs:"))), {"spec": s})
             break
     # (X) the recorded traces are runs of the AtomicRename model
     shards = []
